@@ -35,6 +35,8 @@ def run(F, X, rep):
     if H.need_hh(C, rep, "C02-S8"):
         H.p4b_answer_only_via_lifecycle(C, rep, "C02-S8")
     S.s7_generation_guard(C, rep, "C02-S7")
+    # "from a stored Pending state wait first" presupposes that a stored Pending record is reported as Pending
+    S.w4_fetch_mapping(C, rep, "C02-S11")
     import rules_provider as P
     P.v_wait_payment(C, rep, "C02-S9")
     P.d_dispatch(C, rep, "C02-S9")
